@@ -235,4 +235,34 @@ def witness_search(tier, seed):
                 if got != exp:
                     return dict(config=[skind, ver, ckind, which, state],
                                 detail=f"TimingData took bpms={td.bpms} stops={td.stops} delays={td.delays} warps={td.warps} offset={td.offset}, expected everything from the {'chart' if expect_chart else 'simfile'}")
+    # the displayed BPM: the source's DISPLAYBPM when present, well-formed and not ignored, else from the source's BPMS
+    from simfile.timing.displaybpm import StaticDisplayBPM, RangeDisplayBPM, RandomDisplayBPM
+    for bpms, fallback in (("0.000=120.000", StaticDisplayBPM(Decimal("120.000"))),
+                           ("0.000=120.000,4.000=60.000,8.000=180.500", RangeDisplayBPM(Decimal("60.000"), Decimal("180.500")))):
+        for spec, meaning in ((None, None), ("", None), ("150", StaticDisplayBPM(Decimal("150"))), ("100:200.5", RangeDisplayBPM(Decimal("100"), Decimal("200.5"))),
+                              ("*", RandomDisplayBPM()), ("abc", None), ("1:2:3", None)):
+            for ignore in (False, True):
+                for level in ("simfile", "chart"):
+                    sf = SSCSimfile.blank()
+                    sf["VERSION"] = "0.83"
+                    sf["BPMS"] = bpms if level == "simfile" else "0.000=999.000"
+                    ch = None
+                    src = sf
+                    if level == "chart":
+                        ch = SSCChart.blank()
+                        ch["BPMS"] = bpms
+                        sf["DISPLAYBPM"] = "777"
+                        src = ch
+                    if spec is None:
+                        src.pop("DISPLAYBPM", None)
+                    else:
+                        src["DISPLAYBPM"] = spec
+                    want = meaning if (meaning is not None and not ignore) else fallback
+                    try:
+                        got = displaybpm(sf, ch, ignore_specified=ignore) if ch is not None else displaybpm(sf, ignore_specified=ignore)
+                    except Exception as e:
+                        got = f"raised {type(e).__name__}: {e}"
+                    if got != want or type(got) is not type(want):
+                        return dict(config=dict(level=level, BPMS=bpms, DISPLAYBPM=spec, ignore_specified=ignore),
+                                    detail=f"displaybpm gave {got!r}; the statement prescribes {want!r}")
     return None
